@@ -106,7 +106,7 @@ def check_fit_point(prob, x, cov, viols, only_coord=None):
                                f"scipy objective raised {type(e).__name__}: {e} at x={rep['x']}", rep))
         cov.outcome("fit:exception")
         return
-    cov.add("evaluations")
+    cov.extra["function_evaluations"] = cov.extra.get("function_evaluations", 0) + 2
     if not (math.isfinite(v0) and math.isfinite(v1) and np.all(np.isfinite(g))):
         viols.append(Violation(PROP, _fit_key("non-finite", cfg),
                                f"criterion/gradient not finite inside the box: value {v1}, grad {g.tolist()}", rep))
@@ -131,6 +131,7 @@ def check_fit_point(prob, x, cov, viols, only_coord=None):
                                    f"criterion raised {type(e).__name__}: {e} near x={rep['x']} coord {label}", rep))
             continue
         cov.add("evaluations")
+        cov.extra["function_evaluations"] = cov.extra.get("function_evaluations", 0) + 2 * NTAB_FIT
         if SPY.jittered or jit_here:
             cov.outcome("fit:skipped-jitter")
             cov.extra["fit_jitter_points"] = cov.extra.get("fit_jitter_points", 0) + 1
@@ -168,10 +169,10 @@ def run_fit(cfg):
         viols.append(Violation(PROP, _fit_key("exception:" + type(e).__name__, cfg),
                                f"building likelihood/objective raised {type(e).__name__}: {e}", {"cfg": cfg}))
         return cov, viols
-    calls0 = SPY.calls
+    calls0 = SPY.total
     for x in prob.base_points(cfg.get("full", False)):
         check_fit_point(prob, x, cov, viols)
-    cov.extra["spy_calls"] = SPY.calls - calls0 + cov.extra.get("spy_calls", 0)
+    cov.extra["spy_calls"] = SPY.total - calls0
     cov.outcome(f"fit:config:p={len(prob.coords)}")
     return cov, viols
 
@@ -259,7 +260,7 @@ def run_acq(task):
                 cov.outcome("acq:exception")
                 failed = True
                 break
-            cov.add("evaluations")
+            cov.extra["function_evaluations"] = cov.extra.get("function_evaluations", 0) + len(S) + 2
             recs.append((x, vals, v_single, v_g, g))
         if failed:
             continue
@@ -318,6 +319,7 @@ def run_acq(task):
             for i in range(d):
                 gfd, err = row[i]
                 gi = float(g[i])
+                cov.add("evaluations")
                 if not (err <= RESOLVE * max(scale, abs(gfd))):
                     cov.outcome("acq:skipped-fd-unresolved")
                     cov.extra["acq_fd_unresolved"] = cov.extra.get("acq_fd_unresolved", 0) + 1
@@ -367,9 +369,11 @@ def run(tier, seed):
     for cov, viols in pmap(_task, tasks):
         res.cov.merge(cov)
         res.violations.extend(viols)
-    if not res.cov.extra.get("spy_calls"):
-        res.violations.append(Violation(PROP, "harness:jitter-spy-not-reached",
-                                        "AddJitterOp seam was never called: jitter detection is not in effect"))
+    from ..c09_models import spy_self_test
+    if not res.cov.extra.get("spy_calls") or not spy_self_test():
+        res.violations.append(Violation(PROP, "harness:jitter-spy-not-effective",
+                                        "AddJitterOp seam never called or its self-test (duplicate inputs, zero noise => "
+                                        "jitter) failed: jitter detection is not in effect"))
     res.rule = (
         "Cartesian lattice, every element visited once. Part A (fit): {d in 1,2} x {n<=4 inputs from a fixed 4-point grid in "
         "general position (+ one n=5 set so that on_fit_start frees the Box-Cox lambda); thorough: all subsets} x 2 target "
